@@ -33,7 +33,9 @@ def mutate_json(doc, mut):
             n, m = (shape + [0, 0])[:2] if isinstance(shape, list) else (0, 0)
             new = {"row_out": [n, 0, 1.0], "col_out": [0, m, 1.0], "negative": [-1, 0, 1.0], "index_text": ["0", 0, 1.0],
                    "value_text": [0, 0, "x"], "malformed": [0, 0], "col_index_float": [0, 0.5, 1.0],
-                   "row_index_float": [0.5, 0, 1.0], "col_index_text": [0, "0", 1.0]}[arg]
+                   "row_index_float": [0.5, 0, 1.0], "col_index_text": [0, "0", 1.0],
+                   # JSON booleans: Python's bool is a subclass of int, so a lenient integer test lets them through
+                   "row_index_bool": [True, 0, 1.0], "col_index_bool": [0, False, 1.0], "value_bool": [0, 0, True]}[arg]
             data.append(new)
     elif kind == "ids":
         rows, cols = d.get("rows"), d.get("columns")
